@@ -2,12 +2,15 @@
 from .. import sched_impl, sched_gen, sched_suite
 
 PROPERTY = "C02"
-LEAN_MODULE = "IsobarV.Props.C02"
+LEAN_MODULE = "IsobarV.Props.C02Runs"
+CHECKER_MODULES = ["IsobarV.Props.C02", "IsobarV.Sched.Balance", "IsobarV.Sched.BalanceOps", "IsobarV.Props.C02Runs"]
 THEOREMS = ["IsobarV.C02." + t for t in (
     "sounding_eq_pending", "balance_step", "off_le_on", "no_tracks_no_sound", "stop_only_when_empty",
     "stop_implies_silence", "silent_inactive_or_muted", "silent_voices", "voices_paired", "release_rule",
     "phase_one_calls", "not_in_onset_tick", "cdiv_spec", "first_due_tick", "soloTick_timely", "timely_invariant",
-    "released_on_first_due_tick")]
+    "released_on_first_due_tick",
+    # every tick of a multi-track run (lean/IsobarV/Props/C02Runs.lean)
+    "trackNext_timely", "alone_timely", "all_tracks_timely", "every_release_on_time")]
 RULE = ("random histories of schedule/update/mute/unmute/unschedule/clear/tick over lasso streams of notes, chords "
         "(per-voice amp/gate/channel), rests, zero amp/gate, inactive events, scripted faults; executed on the real "
         "Timeline (recording device) and on the Lean model, traces diffed tick by tick; non-trivial = an update, mute, "
